@@ -1,9 +1,10 @@
 """C05 - contract checks stop every precondition violation before it does damage."""
-from pipes import vector
+from pipes import vector, contract
 
 
 def run(tier, rep):
     vector.contract_pipeline(tier, rep)
+    contract.pipeline(tier, rep)
     rep.devs = [d for d in rep.devs if d["kind"].startswith("contract") or d["kind"] == "harness-pre"]
     rep.assumptions += ["documented preconditions are the ones spec/*Ops.tla Pre() states (transcribed from the std clause / doc comments)",
                         "violating calls run in a forked child; the handler snapshot is taken through the public observers"]
